@@ -314,7 +314,8 @@ def InlineXor2(obj:Logic):
     return "assign {} = {} ^ {};\n".format(getParentWireName(obj, obj.r), getParentWireName(obj, obj.a) , getParentWireName(obj, obj.b))
 
 def InlineMux2(obj:Logic):
-    return "assign {} = ({})? {} : {};\n".format(getParentWireName(obj, obj.r), getParentWireName(obj, obj.sel), getParentWireName(obj, obj.sel1) , getParentWireName(obj, obj.sel0))
+    # only the LSB of the select signal is considered (as in Mux2.propagate)
+    return "assign {} = ({})? {} : {};\n".format(getParentWireName(obj, obj.r), getBitSelect(obj, obj.sel, 0), getParentWireName(obj, obj.sel1) , getParentWireName(obj, obj.sel0))
 
 def InlineAddCarryIn(obj:Logic):
     return "assign {} = {} + {} + {};\n".format(getParentWireName(obj, obj.r), getParentWireName(obj, obj.a) , getParentWireName(obj, obj.b) , getParentWireName(obj, obj.ci) )
